@@ -6,11 +6,12 @@
    The source class is the object "clazz" of the heap:
      isinstance(clazz, StructMeta)   k_is_struct k
      clazz.__name__                  k_name k
-     clazz.__dict__                  any entries [pre], then "_fields" (the own field names) and "_ignore_none"
-                                     when the class body set it, then any entries [post]; pre / post stand for
-                                     everything else a class dict holds (__module__, _required, the field
-                                     objects, _additional_properties, ...) and are only required not to use the
-                                     three keys _init_class_dict copies
+     clazz.__dict__                  any entries [pre], then "_fields" (the own field names), then any entries
+                                     [post]; pre / post stand for everything else a class dict holds (__module__,
+                                     _required, _ignore_none, the field objects, _additional_properties, ...) and
+                                     are only required not to use the two keys _init_class_dict copies
+     clazz._ignore_none              present iff the class body set it or a base class has it ([inh]: what the
+                                     bases give): the class's own value, else the inherited one
      clazz._field_by_name            name -> the Field / Constant OBJECT "field:<name>", in the order of k_all k
      clazz._required                 k_required k
    The object "field:<n>" has the attribute _default iff member n is a Field (a Constant has none): None when
@@ -50,11 +51,13 @@ Definition n_defaults : pystr := s2p "_defaults".
 Definition n_required : pystr := s2p "_required".
 
 (* the keys _init_class_dict copies from the source's own __dict__ *)
-Definition included_attrs : list pystr := [n_fields; n_ignore_none; n_defaults].
+Definition included_attrs : list pystr := [n_fields; n_defaults].
 
-Definition own_core (k : klass) : list (pystr * pyval) :=
-  (n_fields, dv_names (map fst (k_own k))) ::
-  match k_ignore_none k with Some b => [(n_ignore_none, PBool b)] | None => [] end.
+Definition own_core (k : klass) : list (pystr * pyval) := [(n_fields, dv_names (map fst (k_own k)))].
+
+(* what _init_class_dict returns: the copied keys, then _ignore_none as the class sees it ([ign]) *)
+Definition init_core (k : klass) (ign : option bool) : list (pystr * pyval) :=
+  own_core k ++ match ign with Some b => [(n_ignore_none, PBool b)] | None => [] end.
 
 Definition own_dict (k : klass) (pre post : list (pystr * pyval)) : list (pystr * pyval) :=
   pre ++ own_core k ++ post.
@@ -62,7 +65,7 @@ Definition own_dict (k : klass) (pre post : list (pystr * pyval)) : list (pystr 
 Definition field_by_name (k : klass) : list (pystr * pyval) :=
   map (fun nm => (fst nm, fld_ref (fst nm))) (k_all k).
 
-Definition klass_heap (k : klass) (pre post : list (pystr * pyval)) : heap :=
+Definition klass_heap (k : klass) (inh : option bool) (pre post : list (pystr * pyval)) : heap :=
   fun o a =>
     if pystr_eqb o o_clazz then
       if pystr_eqb a (isinstance_attr (s2p "StructMeta")) then Some (PBool (k_is_struct k))
@@ -70,6 +73,8 @@ Definition klass_heap (k : klass) (pre post : list (pystr * pyval)) : heap :=
       else if pystr_eqb a (s2p "__dict__") then Some (PDict (skeys (own_dict k pre post)))
       else if pystr_eqb a (s2p "_field_by_name") then Some (PDict (skeys (field_by_name k)))
       else if pystr_eqb a n_required then Some (dv_names (k_required k))
+      else if pystr_eqb a n_ignore_none then
+        match effective_ignore_none inh k with Some b => Some (PBool b) | None => None end
       else None
     else
       match strip_prefix fld_prefix o with
